@@ -28,6 +28,11 @@ func (c *caseProg) rerender() *gen.Rendered {
 
 func genCaseProg(t *rapid.T, cfg gen.ProgCfg, lo gen.LayoutOpts) caseProg {
 	p, feat := gen.GenProg(t, cfg)
+	if gen.Chance(t, 3, "special") {
+		var tag string
+		p, tag = gen.SpecialProg(t)
+		feat = map[string]int{tag: 1}
+	}
 	r := gen.RenderProg(p)
 	lay := gen.GenLayout(t, r.Toks, lo)
 	src, _ := renderChecked(r.Toks, lay)
